@@ -24,6 +24,10 @@ where
 {
     let (tx, rx) = flume::bounded(100);
 
+    // Virtual-time twin of `std::time::Instant` so the cache expiry follows simulated time.
+    #[cfg(datacake_verif)]
+    use tokio::time::Instant;
+
     tokio::spawn(async move {
         let mut total_nodes = 0;
         let mut data_centers = BTreeMap::new();
@@ -382,6 +386,13 @@ fn select_n_nodes(
 ) -> Result<Nodes, ConsistencyError> {
     use rand::seq::IteratorRandom;
     let mut rng = rand::thread_rng();
+    // Seed-determined data-center choice when the hook PRNG is seeded.
+    #[cfg(datacake_verif)]
+    let mut rng = {
+        use rand::{RngCore, SeedableRng};
+        let seed = datacake_crdt::verif::next_u64().unwrap_or_else(|| rng.next_u64());
+        rand::rngs::StdRng::seed_from_u64(seed)
+    };
 
     let num_nodes_outside_dc = total_nodes
         - data_centers
